@@ -502,6 +502,15 @@ static std::string run_case(const Args& a, long i, const std::string& outdir) {
     { // damping: gamma dt / m_node = gdt for a typical node
         const double rr = 1.3 * pop.r0, v_typ = 4.18879 * rr * rr * rr, m_node = 1e3 * v_typ / 60.0; sp.damping_coefficient_ = a.getd("gdt", g.uni(0.04, 0.12)) * m_node / sw.dt; }
 
+    // ---- the output folder may have been used before: an earlier, longer run leaves more result files behind than this run will write (and a
+    //      statistics file only if it did not keep its statistics in memory); afterwards the folder must hold this run's files only
+    if (g.coin(0.3) && a.geti("reuse_folder", 1) != 0) {
+        std::error_code ec2; fs::create_directories(outdir + "/cell_data", ec2); fs::create_directories(outdir + "/face_data", ec2);
+        const long kmain = std::min<long>(200, (long)(sw.T / sw.S) + 1); const int extra = g.range(1, 6);
+        for (long k = 1; k <= kmain + extra; k++) for (const char* sub : {"/cell_data", "/face_data"}) { FILE* f = fopen((outdir + sub + "/result_" + std::to_string(k) + ".vtk").c_str(), "w"); if (f) { fputs("# vtk DataFile Version 4.2\nleft behind by an earlier run\n", f); fclose(f); } }
+        if (g.coin(0.4)) { FILE* f = fopen((outdir + "/simulation_statistics.csv").c_str(), "w"); if (f) { fputs("iteration,simulation_time,cell_id\n0,0,0\n", f); fclose(f); } }
+        o.bin("output_folder_used_by_an_earlier_run");
+    }
     Monitor M; M.T = sw.T; M.dt = sw.dt; M.Sp = sw.S; g_mon = &M;
     verif::get().phase = phase_hook; verif::get().remesh_event = remesh_hook;
     bool threw = false; std::string what; std::string stats_text; bool stats_present = false; double t_end = 0; size_t cells_end = 0;
